@@ -118,6 +118,8 @@ def c20_rf21(run):
 def c11_vocab(run):
     rf_vocab.rf7d(run)
     run.min_instances('RF7d', 50)
+    rf_vocab.rf15(run)
+    run.min_instances('RF15', 3)
 
 
 def c10_vocab(run):
@@ -125,6 +127,8 @@ def c10_vocab(run):
     run.min_instances('RF7c', 30)
     rf_vocab.rf22(run)
     run.min_instances('RF22', 1)
+    rf_vocab.rf15(run)
+    run.min_instances('RF15', 3)
 
 
 def c17_rf2(run):
@@ -185,6 +189,8 @@ def c04_rf18(run):
     rf_dispatch.rf7b(run, units=('mir',))
     rf_inline.rf28(run)
     run.min_instances('RF28', 3)
+    rf_inline.rf29(run)
+    run.min_instances('RF29', 3)
 
 
 def c16_rf16(run):
@@ -211,6 +217,8 @@ def c14_rf16f(run):
     rf_proto.rf16f(run)
     run.min_instances('RF16f', 15)
     rf_dispatch.rf7f(run)
+    rf_proto.rf16d(run)
+    run.min_instances('RF16d', 8)
 
 
 def c02_rf7a(run):
@@ -239,6 +247,8 @@ def c03_rf11(run):
 def c06_rf11(run):
     rf_templates.rf11(run)
     run.min_instances('RF11', 40)
+    rf_flow.rf30(run)
+    run.min_instances('RF30', 3)
 
 
 def c05_rf12(run):
@@ -253,6 +263,8 @@ def c05_rf10(run):
     run.min_instances('RF10b', 12)
     rf_abi.rf10c(run)
     run.min_instances('RF10c', 6)
+    rf_abi.rf10d(run)
+    run.min_instances('RF10d', 1)
     rf_dispatch.rf7e(run, units=('gen',), expect=1)
     rf_dispatch.rf7f(run)
     run.min_instances('RF7f', 30)
